@@ -5,6 +5,7 @@ import Smpp.Properties.SrcPduFrame
 import Smpp.Proofs.Framing
 import Smpp.Generated.Layouts
 import Smpp.Generated.PduFacts
+import Smpp.Generated.ConnFacts
 
 namespace Smpp.Properties.C03
 open Smpp Smpp.Pdu Smpp.Generated
@@ -27,6 +28,15 @@ theorem length_bounds :
     pduGuards.filter (fun g => g.startsWith "pdu/header.go")
       = ["pdu/header.go readHeaderFrom: header.CommandLength < 16",
          "pdu/header.go readHeaderFrom: header.CommandLength > 0x10000"] := by decide +kernel
+
+/-- Watch — the consumer that relies on exact consumption — hands the transport itself to every ReadPDU call: no buffered
+reader between calls that could read ahead and drop octets of the next frame, `continue` after the generic_nack -/
+theorem watch_reads_transport_directly : connSrc_Conn_Watch = [
+  "Conn.Watch: defer close(c.receiveQueue)",
+  "Conn.Watch: defer c.cancel()",
+  "Conn.Watch: var err error",
+  "Conn.Watch: var packet interface{}",
+  "Conn.Watch: for { select { case <-c.ctx.Done(): return default: } if c.ReadTimeout > 0 { _ = c.parent.SetReadDeadline(time.Now().Add(c.ReadTimeout)) } if packet, err = ReadPDU(c.parent); err == io.EOF { return } else if status, ok := err.(CommandStatus); err != nil { if packet == nil { return } else if !ok { status = ErrUnknownError } sequence := ReadSequence(packet) _ = c.Send(&GenericNACK{ Header: Header{CommandStatus: status, Sequence: sequence}, Tags: Tags{0xFFFF: []byte(err.Error())}, }) continue } else if callback, ok := c.lookup(ReadSequence(packet)); ok { callback(packet) } else { select { case <-c.ctx.Done(): return case c.receiveQueue <- packet: } } }"] := rfl
 
 /-! ## theorems -/
 
